@@ -132,7 +132,7 @@ def ops_reduce(rng):
     a, b = pair(rng)
     o.append("scalar %s ; %s" % (vec(a), vec(b)))
     a, b = pair(rng)
-    w = values(rng, len(b) if rng.random() < 0.9 else length(rng), "pos")
+    w = values(rng, rng.choice([len(a), len(b)]) if rng.random() < 0.9 else length(rng), "pos")
     o.append("scalarw %s ; %s ; %s" % (vec(a), vec(b), vec(w)))
     o.append("norm " + vec(one(rng)))
     a, w = pair(rng, None, "pos")
@@ -294,7 +294,14 @@ def ops_options(rng):
     kind = rng.choice(["ints", "reals", "tiny", "mag"])
     a = values(rng, n, kind)
     b = values(rng, n, kind)
-    w = weights(rng, n if rng.random() < 0.9 else length(rng))
+    w = weights(rng, n)
+    r = rng.random()          # which of the three lengths is the odd one (each raises at a different test)
+    if r < 0.05:
+        w = weights(rng, length(rng))
+    elif r < 0.10:
+        b = values(rng, length(rng), kind)
+    elif r < 0.15:
+        a = values(rng, length(rng), kind)
     for u in "01":
         o.append("cov %s %s ; %s" % (u, vec(a), vec(b)))
         o.append("var %s %s" % (u, vec(a)))
